@@ -78,7 +78,9 @@ def rule_d2(rep, tier):
     cfgs = check_configs(tier)
     builds = repo.configure_many(cfgs)
     api = facts.public_c_api(builds[0])
-    lowered = repo.lower_many([(b, dict(group="lib", level="O0",
+    # file-local helpers are inlined: the checker's flag is found in ascon_acquire / ascon_release however the
+    # check is factored
+    lowered = repo.lower_many([(b, dict(group="lib", level="O0", inline_internal=True,
                                         tolerate=_cpp_units(b))) for b in builds])
     for b, lr in zip(builds, lowered):
         m = ir.Module.load(lr.json)
